@@ -44,7 +44,9 @@ def main():
             rep = r.get("detected_by", [])
             mach = r.get("machinery_errors", [])
             n = len(r.get("checks", {}))
-            return (("reported by " + ", ".join(rep)) if rep else f"silent ({n} checks)") + ((" machinery exit in " + ("all" if len(mach) == n else ", ".join(mach))) if mach else "")
+            if mach and not rep:
+                return "machinery exit (status 2) in " + (f"all {n} checks" if len(mach) == n else ", ".join(mach))
+            return (("reported by " + ", ".join(rep)) if rep else f"silent ({n} checks)") + ((" machinery exit in " + ", ".join(mach)) if mach else "")
         meta = {
             "id": name,
             "kind": "property-preserving change (round nine): no check may report it",
